@@ -245,6 +245,11 @@ def d11(ctx: Ctx):
                             and isinstance(sl.left.right, ast.Constant)
                             and sl.left.right.value == 1
                         )
+                        if not okw and isinstance(sl, ast.BinOp) and isinstance(sl.op, ast.Sub) and unparse(sl.left) == widx and isinstance(sl.right, ast.Constant) and sl.right.value == 1:
+                            # `buf[x - 1]`: at x = 0 Python's index -1 is the last element - the same cyclic neighbour,
+                            # provided x runs over exactly the buffer (0 .. size-1)
+                            lp_ = next((l for l in loops_of(r) if isinstance(l, ast.For) and isinstance(l.target, ast.Name) and l.target.id == widx), None)
+                            okw = lp_ is not None and isinstance(lp_.iter, ast.Call) and call_name(lp_.iter) == "range" and len(lp_.iter.args) == 1 and isinstance(lp_.iter.args[0], ast.Constant) and lp_.iter.args[0].value == size
                         ctx.ob(
                             f"{dec}.{fn.name}:{var}:previous",
                             okw,
